@@ -34,7 +34,7 @@ import (
 func TestMain(m *testing.M) {
 	logrus.SetOutput(io.Discard)
 	logrus.SetLevel(logrus.PanicLevel)
-	ev.C().Rule("rapid, end to end on loopback: lambda.NewExtension (per-invocation flushing) around a forwarder-mode statsd.Server with an HTTP ingestion server, a fake Lambda runtime API (register, telemetry subscribe held until data was injected, /event/next long-poll released by the harness, /init/error, /exit/error) and a fake upstream /v2/raw with drawn latency (0..40 ms, occasionally one call of 1.2 s - 5.5 s) and outcome (2xx, 5xx, connection close); histories of 1..5 invocations, each with 0..4 uniquely valued datapoints accepted over HTTP and 1..3 telemetry batches with other record types around at most one platform.runtimeDone; plus a start-up failure scenario. Oracle: order invariant over one global log. Non-trivial = an invocation with >= 1 datapoint and upstream latency > 0")
+	ev.C().Rule("rapid, end to end on loopback: lambda.NewExtension (per-invocation flushing) around a forwarder-mode statsd.Server with an HTTP ingestion server, a fake Lambda runtime API (register, telemetry subscribe held until data was injected, /event/next long-poll released by the harness, /init/error, /exit/error) and a fake upstream /v2/raw with drawn latency (0..40 ms, occasionally one call of 1.2 s - 5.5 s) and outcome (2xx, 5xx, connection close); histories of 1..5 invocations, each with 0..4 uniquely valued datapoints accepted over HTTP and 1..3 telemetry batches with other record types around at most one platform.runtimeDone; plus a start-up failure scenario. Oracle: order invariant over one global log; rarely the gostatsd server is started only after the manager's start-up allowance and initial flush (same wiring through a build-tag hook): if the extension then asks for events at all, the same ordering must hold. Non-trivial = an invocation with >= 1 datapoint and upstream latency > 0")
 	vt.Main(m)
 }
 
@@ -355,9 +355,24 @@ func TestExtensionOrdering(t *testing.T) {
 			"compress":           rapid.Bool().Draw(t, "compress"),
 		}
 		srv := newServer(up.URL, ingestPort, "forwarder")
-		ext, err := lambda.NewExtension(logrus.StandardLogger(), srv, lambda.Options{RuntimeAPI: strings.TrimPrefix(api.URL, "http://"), ExecutableName: "gostatsd", EnableManualFlush: true, TelemetryAddr: fmt.Sprintf("127.0.0.1:%d", telePort)})
-		if err != nil {
-			t.Fatalf("NewExtension: %v", err)
+		// rarely the gostatsd server comes up slowly: its forwarder registers with the flush coordinator only after the
+		// manager's start-up allowance (100 ms) has passed and the initial flush has been asked for. Same wiring as
+		// lambda.NewExtension, with the server's Run held back by the harness.
+		slowStart := rapid.IntRange(0, 7).Draw(t, "server-starts-after-initial-flush") == 0
+		var ext interface{ Run(context.Context) error }
+		var slowFC verifhooks.Coordinator
+		startServer := make(chan struct{})
+		if slowStart {
+			slowFC = verifhooks.NewFlushCoordinator()
+			s2 := *srv
+			s2.ForwarderFlushCoordinator = slowFC
+			ext = verifhooks.NewExtensionManager(strings.TrimPrefix(api.URL, "http://"), "gostatsd", logrus.StandardLogger(), heldServer{srv: &s2, start: startServer}, slowFC, fmt.Sprintf("127.0.0.1:%d", telePort))
+		} else {
+			var err error
+			ext, err = lambda.NewExtension(logrus.StandardLogger(), srv, lambda.Options{RuntimeAPI: strings.TrimPrefix(api.URL, "http://"), ExecutableName: "gostatsd", EnableManualFlush: true, TelemetryAddr: fmt.Sprintf("127.0.0.1:%d", telePort)})
+			if err != nil {
+				t.Fatalf("NewExtension: %v", err)
+			}
 		}
 		ctx, cancel := context.WithCancel(context.Background())
 		runDone := make(chan error, 1)
@@ -375,11 +390,30 @@ func TestExtensionOrdering(t *testing.T) {
 
 		// start-up: datapoints accepted while the telemetry subscription is still being answered must be covered by the initial flush
 		n0 := rapid.IntRange(0, 2).Draw(t, "startup-datapoints")
+		if slowStart {
+			n0 = 0 // nothing listens yet
+		}
 		for i := 0; i < n0; i++ {
 			inject(t, w, ingestPort)
 		}
 		history = append(history, fmt.Sprintf("startup: %d datapoints, then subscribe answered", n0))
 		close(w.subHold)
+		if slowStart {
+			time.Sleep(time.Duration(rapid.SampledFrom([]int{180, 300}).Draw(t, "server-start-delay-ms")) * time.Millisecond)
+			close(startServer)
+			history = append(history, "the gostatsd server started only after the start-up allowance")
+			// Today the extension then never asks for an event (its initial flush found nobody to notify it). That is outside
+			// the statement; what the statement covers is the order of things IF it does ask.
+			select {
+			case n := <-w.nextSeen:
+				w.nextSeen <- n
+			case <-time.After(1500 * time.Millisecond):
+				cancel()
+				slowFC.NotifyFlush() // lets the parked heartbeat see the cancellation
+				ev.C().Case("slow-start-no-event-requested", false, "slow-start", "slow-start-extension-idle")
+				return
+			}
+		}
 		select {
 		case n := <-w.nextSeen:
 			if n != 1 {
@@ -449,11 +483,29 @@ func TestExtensionOrdering(t *testing.T) {
 			ev.C().Sample(map[string]interface{}{"history": history, "latencies_ms": latencies, "outcomes": outcomes, "log": describe(w.snapshot())})
 		}
 		labels := []string{fmt.Sprintf("invocations=%d", invocations)}
+		if slowStart {
+			labels = append(labels, "slow-start", "slow-start-events-requested")
+		}
 		if slowLabel != "" {
 			labels = append(labels, slowLabel)
 		}
 		ev.C().Case(fmt.Sprintf("%v|%v|%v", history, latencies, outcomes), nontrivial, labels...)
 	})
+}
+
+// heldServer is the gostatsd server, started when the harness says so.
+type heldServer struct {
+	srv   *statsd.Server
+	start chan struct{}
+}
+
+func (h heldServer) Run(ctx context.Context) error {
+	select {
+	case <-h.start:
+	case <-ctx.Done():
+		return ctx.Err()
+	}
+	return h.srv.Run(ctx)
 }
 
 func min(a, b int) int {
